@@ -1,6 +1,6 @@
 (** C14 - built-in error messages name the right place, value and alternatives. *)
 From Deserr Require Import Base Pointer Kinds Value Prog Utf8 Scalars Types Deser Monitors Messages.
-From Deserr.proofs Require Import C14Proofs.
+From Deserr.proofs Require Import C14Proofs PathProofs.
 Local Open Scope string_scope.
 
 (** JsonError and QueryParamError always answer Break and return errors handed to them
@@ -28,6 +28,27 @@ Example c14_example :
      = "Unknown field `doggo`: did you mean `dogo`? expected one of `dogo`, `catto`"%string.
 Proof. vm_compute. repeat split. Qed.
 
+
+(** The JSON rendering of a location can be parsed back (by the left-to-right parser
+    [PathProofs.parse_path]) into exactly the steps of the location, when no key contains '.' or
+    '[' - for other keys the text is ambiguous by nature; hence the rendering is injective on
+    such locations: the message names the place unambiguously. *)
+Theorem c14_path_roundtrip : forall l, plain_keys l = true -> parse_path (path_json l) = Some (to_owned l).
+Proof. exact path_json_roundtrip. Qed.
+
+Theorem c14_path_injective : forall l1 l2,
+  plain_keys l1 = true -> plain_keys l2 = true -> path_json l1 = path_json l2 -> to_owned l1 = to_owned l2.
+Proof. exact path_json_injective. Qed.
+
+Example c14_path_example :
+  parse_path (path_json (Index 12 (Key "b c" (Index 0 (Key "a" Origin)))))
+  = Some [SKey "a"; SIndex 0; SKey "b c"; SIndex 12].
+Proof. vm_compute. reflexivity. Qed.
+
+Check c14_path_roundtrip : forall l, plain_keys l = true -> parse_path (path_json l) = Some (to_owned l).
+Check c14_path_injective : forall l1 l2,
+  plain_keys l1 = true -> plain_keys l2 = true -> path_json l1 = path_json l2 -> to_owned l1 = to_owned l2.
+
 Check c14_first_report : forall ftext dtext qp t v sc1 sc2,
   first_report_msg ftext dtext qp (snd (run sc1 (deserialize t v) []))
   = first_report_msg ftext dtext qp (snd (run sc2 (deserialize t v) [])).
@@ -35,3 +56,5 @@ Check c14_ok_same : forall t a v l sc1 sc2 s o s',
   run sc1 (deser t a v l) s = (ROk o, s') -> run sc2 (deser t a v l) s = (ROk o, s').
 Print Assumptions c14_first_report.
 Print Assumptions c14_ok_same.
+Print Assumptions c14_path_roundtrip.
+Print Assumptions c14_path_injective.
